@@ -45,6 +45,7 @@ type witness struct {
 
 func main() {
 	r := ev.Start("C09", "exploration")
+	r.Supervise() // a real engine runs in-process: its death is an outcome, observed by a supervising parent
 	r.Rule("generated table contents (small nasty keys; big: 3-9 pairs of 0.5-2 MiB so that 4 MiB size cuts fall on / before / after the last pair); every request is issued with limit in {m-2..m+2, 0} " +
 		"for m matching pairs, in full / keys_only / count_only form, as one read and as a stream. Non-trivial: a read with limit in {m-1,m,m+1} (m>=1) or a stream of >=2 messages; distinct by (content, request) hash")
 	r.Assume("how pairs are packed into messages is not judged, only: prefix of the full answer, ascending, within limit, truthful more, every message below the 4 MiB transport limit, progress")
